@@ -130,21 +130,44 @@ def full_like(a, fill_value, **k):
   return _np.full_like(a, fill_value, **k)
 
 
+def _cast_obj(obj, dtype):
+  """np.array(obj, dtype=int/float) on symbolic data: float keeps the symbols, int truncates"""
+  r = wrap(_np.array(obj, dtype=object))
+  if dtype in (int, _np.intp, _np.int64, 'int'):
+    return r.astype(int)
+  return r
+
+
+def _dtype_of(a, k):
+  if 'dtype' in k:
+    return k['dtype']
+  return a[0] if a else None
+
+
 @_ov
 def array(obj, *a, **k):
+  dt = _dtype_of(a, k)
+  if _isobj(obj) and dt in (int, float, _np.float64, _np.intp, _np.int64, 'int', 'float'):
+    return _cast_obj(obj, dt)
   r = _np.array(obj, *a, **k)
   return wrap(r)
 
 
 @_ov
 def asarray(obj, *a, **k):
+  from .shapes import FakeArray
+  if isinstance(obj, FakeArray):
+    return obj
+  dt = _dtype_of(a, k)
+  if _isobj(obj) and dt in (int, float, _np.float64, _np.intp, _np.int64, 'int', 'float'):
+    return _cast_obj(obj, dt)
   return wrap(_np.asarray(obj, *a, **k))
 
 
 @_ov
 def asanyarray(obj, dtype=None, **k):
-  if _isobj(obj) and dtype in (int, float):
-    return wrap(_np.asanyarray(obj))
+  if _isobj(obj) and dtype in (int, float, _np.float64, _np.intp, _np.int64, 'int', 'float'):
+    return _cast_obj(obj, dtype)
   return wrap(_np.asanyarray(obj, dtype=dtype, **k))
 
 
@@ -156,6 +179,9 @@ def atleast_2d(*a):
 
 @_ov
 def atleast_1d(*a):
+  from .shapes import FakeArray
+  if len(a) == 1 and isinstance(a[0], FakeArray):
+    return a[0] if a[0].ndim >= 1 else a[0]._like([1])
   r = _np.atleast_1d(*[_np.asarray(x, dtype=object) if is_sym(x) else x for x in a])
   return wrap(r)
 
@@ -172,7 +198,22 @@ def _wrapping(name):
   setattr(NP, name, f)
 
 
-for _n in ('vstack', 'hstack', 'column_stack', 'concatenate', 'outer', 'dot', 'matmul', 'diag',
+def column_stack(tup):
+  from .shapes import FakeArray
+  tup = list(tup)
+  if tup and all(isinstance(t, FakeArray) for t in tup):
+    first = tup[0]
+    if all(t.ndim == first.ndim and t.ndim >= 2 for t in tup):
+      tot = tup[0].ext[1]
+      for t in tup[1:]:
+        tot = tot + t.ext[1]
+      return first._like([first.ext[0], tot] + list(first.ext[2:]))
+  return wrap(_np.column_stack(tup))
+
+
+NP.column_stack = column_stack
+
+for _n in ('vstack', 'hstack', 'concatenate', 'outer', 'dot', 'matmul', 'diag',
            'tile', 'repeat', 'take', 'take_along_axis', 'squeeze', 'ravel', 'reshape', 'copy',
            'transpose', 'stack', 'triu', 'tril', 'trace', 'cumsum', 'sort'):
   _wrapping(_n)
@@ -320,6 +361,25 @@ def allclose(a, b, rtol=1e-05, atol=1e-08, **k):
       return True
     return ex().branch(z3.And(*conds))
   return _np.allclose(a, b, rtol=rtol, atol=atol, **k)
+
+
+def _isclose1(u, v, rtol, atol):
+  if not is_sym(u) and not is_sym(v):
+    return bool(_np.isclose(u, v, rtol=rtol, atol=atol))
+  if core.is_inf(u) or core.is_inf(v) or core.is_nan(u) or core.is_nan(v):
+    return False
+  tu, tv = term_of(u, True), term_of(v, True)
+  d = z3.If(tu >= tv, tu - tv, tv - tu)
+  av = z3.If(tv >= 0, tv, -tv)
+  return SymBool(d <= core.real_val(atol) + core.real_val(rtol) * av)
+
+
+@_ov
+def isclose(a, b, rtol=1e-05, atol=1e-08, **k):
+  if _isobj(a, b):
+    r = _map(lambda u, v: _isclose1(u, v, rtol, atol), a, b)
+    return r
+  return _np.isclose(a, b, rtol=rtol, atol=atol, **k)
 
 
 @_ov
